@@ -19,6 +19,9 @@ Ops
   "convert"  hps:[cshp…], ncond, nforb, surrogate → res = {"err":kind} | {"dims":[{"name","dim","prior"}…],"cs":bool}
   "sample"   dim, prior|null, draws:[draw…], L, E → vals:[val | {"err":kind} …], mem:[bool…]
   "sample_old" dim, qs:[rat…], L, E             → vals (the pre-fix normalized sampler)
+  "check_point" hps, loose, rows:[[val…]…]     → legal:[bool…]          (checkPoint)
+  "cells"    kind:"flat"|"cs", lo, hi          → cells:[[c1,c2]…]       (flatCell / csCell for every value of lo..hi)
+  "cs_int_log" lo, hi, us:[rat…], L, E         → vals:[int…]            (csIntLogSample, model of ConfigSpace)
   "point"    dims:[{"name","dim","prior"}…], conf:[[name,val]…] → res = {"err":kind} | {"row":[val…]}, mem
 -/
 
@@ -182,6 +185,29 @@ def handle (j : Json) : Except String Json := do
       | .error _ => false
       | .ok row => memRow (dims.map (·.dim)) row
     return Json.mkObj [("ok", true), ("res", res), ("mem", mem)]
+  | "check_point" =>
+    -- verified checker (C10_checker_point) on sampled points; hps in the order of problem.hyperparameter_names
+    let hps ← jList jCsHp (← field j "hps")
+    let loose ← jBool (fieldD j "loose" false)
+    let rows ← jList (jList jVal) (← field j "rows")
+    return Json.mkObj [("ok", true), ("legal", ofBools (rows.map (checkPoint loose hps)))]
+  | "cells" =>
+    -- the cells of the proved integer log-uniform laws (C10_int_log_flat_law / _configspace_law)
+    let lo ← jInt (← field j "lo")
+    let hi ← jInt (← field j "hi")
+    let kind ← (← field j "kind").getStr?
+    let ks := (List.range (hi - lo + 1).toNat).map (fun (n : Nat) => (n : Int))
+    let cells := ks.map (fun n => if kind == "flat" then flatCell lo hi (lo + n) else csCell lo hi n)
+    return Json.mkObj [("ok", true), ("cells", .arr (cells.map (fun c => Json.arr #[ofRat c.1, ofRat c.2])).toArray)]
+  | "cs_int_log" =>
+    -- the model of ConfigSpace's integer log-uniform sampler on scripted uniform numbers
+    let lo ← jInt (← field j "lo")
+    let hi ← jInt (← field j "hi")
+    let us ← jList jRat (← field j "us")
+    let tL ← jPairs (fieldD j "L" (.arr #[]))
+    let tE ← jPairs (fieldD j "E" (.arr #[]))
+    let vals := us.map (csIntLogSample (tabL tL) (tabE tE) lo hi)
+    return Json.mkObj [("ok", true), ("vals", .arr (vals.map (fun v => Json.num (JsonNumber.fromInt v))).toArray)]
   | _ => throw s!"unknown op {op}"
 
 def main : IO Unit := serveFn handle
